@@ -196,6 +196,39 @@ def generate(ctx):
         r['transform'] = 'base'
         for name, q, style in g.variants(p, 3, force=('reorder-inner',)):
             recs.append(rec_from_problem(q, r['family'], 'class', truth=r['truth'], group=gid[0], transform=name, style=style))
+    # goals that can only be achieved by unification with a fact; the role-exchanged twin must get the same verdict
+    U = c02_plans.Unify(rng)
+    n_un = 150 if not ctx.thorough else 2500
+    for i in range(n_un):
+        d = U.make()
+        gid[0] += 1
+        base_gid = gid[0]
+        symmetric = len(d['facts']) == 1 and len(d['goals']) == 1
+        for transform, exch, gfirst in (('base', False, False), ('roles-exchanged', True, False), ('goal-before-fact', False, True)):
+            if transform == 'goal-before-fact' and rng.random() < 0.5:
+                continue
+            lines, atoms, fs, gs = U.render(d, exchanged=exch, goal_first=gfirst, force_false=True)
+            decls, implicit = U.reference(d, fs, gs)
+            p = {'decls': decls, 'stmts': list(d['cons']), 'enums': d['enums']}
+            r = rec_from_problem(p, 'unify' if not gfirst else 'unify:goal-before-fact', 'unify', header=[], implicit=implicit)
+            pr = c02_gen.Printer({n: t for t, n in decls}, None)
+            cons_txt = pr.stmts(d['cons'])
+
+            def text(ls):
+                return "\n".join(ls + (cons_txt + atoms if i % 2 == 0 else atoms + cons_txt)) + "\n"
+            r['text'] = text(lines)
+            if d['body'] != 'false' and not gfirst:
+                # the infinite-regress rule is only used where the problem turns out to be feasible (otherwise the planner
+                # extends the graph for ever: a timeout, which is not judged)
+                r['text_if_feasible'] = text(U.render(d, exchanged=exch, goal_first=gfirst)[0])
+            r['p'] = None                      # small already: no minimisation
+            if exch and not symmetric:
+                gid[0] += 1                    # several goals against one fact is another problem: judged on its own
+                r['group'] = gid[0]
+            else:
+                r['group'] = base_gid
+            r['transform'] = transform
+            recs.append(r)
     for i in range(n_sched):
         s = S.any()
         p = {'decls': s['decls'], 'stmts': s['stmts']}
@@ -252,6 +285,21 @@ def judge_by_reference(ctx, orc, rec, stats):
                                                                   "program": rec['text'], "sexp": rec['sexp'], "answer": ans}, no_input=True)
             rec['ref'] = 'error'
             return
+        if not integral(rec, M):
+            # the witness is over Q: try to move the int variables to neighbouring integers
+            import math
+            M2 = dict(M)
+            for n in rec.get('ints', []):
+                if M2[n].denominator != 1:
+                    for cand in (Fr(math.floor(M2[n])), Fr(math.ceil(M2[n]))):
+                        M3 = dict(M2)
+                        M3[n] = cand
+                        if c02_gen.ev_problem(rec['refp'], M3):
+                            M2 = M3
+                            break
+            if integral(rec, M2) and c02_gen.ev_problem(rec['refp'], M2):
+                M = M2
+                rec['ref_model'] = M
         if rec['truth'] is None:
             if integral(rec, M):
                 rec['truth'] = 'S'
@@ -460,6 +508,8 @@ def run(ctx):
     orc = Oracle(oexe)
     for r in recs:
         judge_by_reference(ctx, orc, r, stats)
+        if r.get('text_if_feasible') and r['truth'] == 'S':
+            r['text'] = r['text_if_feasible']
     ctx.log("generated %d problems, reference answers: %s (%.0fs)" % (
         len(recs), {k: sum(1 for r in recs if r.get('ref') == k) for k in ('sat', 'unsat', 'timeout')}, time.time() - t0))
 
